@@ -38,14 +38,16 @@ def rand_name(r, maxlen=14, minlen=1) -> str:
 
 
 def pbn_cfg(skip=True, sep=True, maxgames=3, b0=(0, 1, 2), mid=(1, 2, 3), be=(0, 1, 2),
-            headers=(0, 2), orders=24, invs=()):
+            headers=(0, 2), orders=24, invs=(), comments=('none',), col0=False):
     return tlc.cfg_text(specification='Spec',
                         constants={'SkipEmptyGames': 'TRUE' if skip else 'FALSE',
                                    'GameSeparator': 'TRUE' if sep else 'FALSE',
                                    'MaxGames': str(maxgames),
                                    'Blanks0': tlc.tla_set(b0), 'BlanksMid': tlc.tla_set(mid),
                                    'BlanksEnd': tlc.tla_set(be), 'Headers': tlc.tla_set(headers),
-                                   'Orders': str(orders)},
+                                   'Orders': str(orders),
+                                   'Col0Comments': 'TRUE' if col0 else 'FALSE',
+                                   'CommentStyles': '{' + ', '.join(f'"{c}"' for c in comments) + '}'},
                         invariants=invs)
 
 
@@ -94,6 +96,31 @@ def render_job(job) -> Tuple[List[Dict[str, Any]], List[Dict[str, Any]]]:
             elif k == 'row':
                 text_lines.append(r.choice(['N NT 7', 'S H 10', 'E C 3']) + eol)
                 conc.append({'k': 'row'})
+            elif k == 'tagc':
+                val = symmap.get(l['val'], l['val'])
+                tail = {'semi': ' ; see [Board "not this"] ',
+                        'brace': ' { note [Board "nor this"] }',
+                        'open': ' { a comment starts here'}[l['tail']]
+                text_lines.append(f'[{l["name"]} "{val}"]' + tail + eol)
+                conc.append({'k': 'tagc', 'name': l['name'], 'val': val, 'tail': l['tail']})
+            elif k == 'open0':
+                text_lines.append('{ a comment from the first column' + eol)
+                conc.append({'k': 'open0'})
+            elif k == 'ctext':
+                look = l['look']
+                text_lines.append({'blank': r.choice(['', ' ', '\t']), 'pct': '% PBN 2.1',
+                                   'tag': f'[{l["name"]} "{l["val"]}"]',
+                                   'text': 'some words of commentary'}[look] + eol)
+                conc.append({'k': 'ctext', 'look': look, 'name': l['name'], 'val': l['val']})
+            elif k == 'close':
+                th = l['then']
+                if th['k'] == 'none':
+                    text_lines.append('the comment ends }' + eol)
+                    conc.append({'k': 'close', 'then': {'k': 'none'}})
+                else:
+                    val = symmap.get(th['val'], th['val'])
+                    text_lines.append(f'the comment ends }} [{th["name"]} "{val}"]' + eol)
+                    conc.append({'k': 'close', 'then': {'k': 'tag', 'name': th['name'], 'val': val}})
             else:
                 val = symmap.get(l['val'], l['val'])
                 text_lines.append(f'[{l["name"]} "{val}"]' + eol)
